@@ -152,7 +152,7 @@ var props = map[string]propCfg{
 		MinNontriv: 100,
 	},
 	"C09": {
-		Quick:    tierCfg{Shards: 8, Checks: 350, Timeout: 4 * time.Minute},
+		Quick:    tierCfg{Shards: 8, Checks: 500, Timeout: 4 * time.Minute},
 		Thorough: tierCfg{Shards: 16, Checks: 2500, Timeout: 40 * time.Minute},
 		Rule: "sequences of 2-5 changes: (a) a mined change on a real host followed by changes that match only the marker code it introduces (bare identifier, empty call, one/two-argument call, call with elision, selector forms), independent changes mined from the same host, and steps that fail at rewrite time (plus side uses an unbound metavariable); (b) synthetic call-rewriting chains fK(...) -> fK+1(...) over a small file (argument permutation, dropping, duplication, wrapping of arguments, elisions that match zero arguments, changes on names that never occur, a later change on a wrapper introduced earlier). The sequence is cut into 1..n patch files and given as one file, several -p, a -P list, -p plus -P, or stdin. (c) guard sequences: 2-5 changes drawn from a pool that renames the package, replaces / adds / deletes / renames imports, or is guarded by a package clause or an import that an earlier change may have introduced or taken away; (d) focused histories on the same calls fK(<nested argument>, <tail>): steps that bind a metavariable to the nested argument and then fail to match, rewrite something strictly inside it, or reproduce it under a new callee (one patch file in a third of the cases, so that whatever a compiled program remembers is shared). Oracle (differential): the combined CLI run vs the chain of single-change runs, each on the bytes the previous one wrote, compared as canonical trees with parentheses looked through; if a single step fails, the combined run must exit non-zero and leave the file byte-identical. " +
 			"Non-trivial = at least two changes applied and one of them does not apply to the original file on its own, or a failing step after at least one applied change; distinct by sha256(changes, file, channel, split). Families added: 'synthetic-emptied' (an elision that stands for nothing empties a result / argument / field list, a later change is about the form without it; optionally a literal not in gofmt's form), 'synthetic-unprintable' (a step whose result cannot be printed, repaired by a later step), 'synthetic-shadowed-package' (a later change names an imported package, the file has a local of that name inside code an earlier change rebuilds). Family 'synthetic-generated-declarations' (an earlier change writes declarations, a later one binds an identifier metavariable at one of them and at an old use). Families 'synthetic-signatures' (an earlier change writes a result list - none, one unnamed, one named, several, or what an elision leaves - and a later one has the signature on context lines in a drawn spelling), 'synthetic-precedence' (an earlier change puts a sum where the printer must parenthesise it - operand of a product, a selector, a call, a unary operator, an index - or leaves one type argument of a list; the later change is written against the printed text). 'Repeat': in one case in six with several patch files the first file is named again at the end (same path), the chain runs its changes again. A -P list may lack its final line feed. Shapes added to 'synthetic-precedence': a function type as the operand of a conversion. Family 'synthetic-unplaceable': a change with a package rename and / or imports whose code occurs only where its '+' code cannot stand, before or after changes that do rewrite the file.",
